@@ -412,7 +412,7 @@ fn run(case: &Case, target: u64) -> (u64, Option<&'static str>, Option<String>, 
                     if let Some(post) = obj.snap_composite() {
                         if let Some(site) = fired_now {
                             inj = Some(format!(
-                                "C comp={} | caps={} | par={} | site={} | op={} | pre={} | post={} | ppost={}",
+                                "C comp={} | caps={} | par={} | site={} | op={} | pre={} | post={} | ppost={} | dr={}",
                                 obj.comp_name(),
                                 p.0,
                                 p.1,
@@ -420,7 +420,8 @@ fn run(case: &Case, target: u64) -> (u64, Option<&'static str>, Option<String>, 
                                 line,
                                 p.2,
                                 post.2,
-                                post.1
+                                post.1,
+                                dropped
                             ));
                             cpre = None;
                         } else {
